@@ -1926,6 +1926,10 @@ def positional_form(F, chain, I=("i",)):
     if len(a) == 2 and itm(name, "zip"):
         l, r = positional_form(F, a[0], I), positional_form(F, a[1], I)
         return None if l is None or r is None else (("tuple", (l[0], r[0])), l[1] | r[1])
+    if len(a) == 2 and itm(name, "map") and a[1][0] == "fn":
+        # a tuple-struct constructor or function used as the mapper
+        inner = positional_form(F, a[0], I)
+        return None if inner is None else (("call", a[1][1], (inner[0],)), inner[1])
     if len(a) == 2 and itm(name, "map") and a[1][0] == "closure" and a[1][1] in F.bodies:
         inner = positional_form(F, a[0], I)
         if inner is None:
@@ -2882,6 +2886,78 @@ def accumulations(body, depth=0):
             k = c.callee
             if k and k in F.bodies and k not in known_functions() and "{closure" not in k:
                 out += accumulations(F.bodies[k], depth + 1)
+    return out
+
+
+
+def selection_folds(body):
+    """accumulations whose step *chooses* between the accumulator and the element (arg-max and the like), whatever the spelling:
+         loop form    `let mut best = seed; for x in src { if p(best, x) { best = x } }`
+         adaptor form `src.fold(seed, |best, x| if p(best, x) { x } else { best })`
+    each as dict(seed, src, cases, local, where, form, result): cases = [(facts, 'acc' | 'elem')] with the comparison facts of
+    that case written over ('acc',) and ('elem',); `local` is the accumulator local (loop form) and `result` the term of the
+    fold call (adaptor form)."""
+    F = body.facts
+    out = []
+    ACC, ELEM = ("acc",), ("elem",)
+    for h in sorted({h for h, _ in body.natural_loops()}):
+        try:
+            rows = iteration_table(body, h)
+        except Exception:
+            continue
+        backs = [r for r in rows if r.kind == "back"]
+        if not backs or not all(r.conds for r in backs):
+            continue
+        d0 = clean(backs[0].conds[0][0])
+        if not (d0[0] == "discr" and d0[1][0] == "call" and re.search(r"::next$", d0[1][1])):
+            continue
+        elem = d0[1]
+        cands = set()
+        for r in backs:
+            for l, v in r.env.items():
+                if clean(v) == elem and body.local_name(l) and any(("carried", l) == clean(r2.new(l)) or contains(clean(c2[0]), lambda q: q == ("carried", l)) for r2 in backs for c2 in r2.conds):
+                    cands.add(l)
+        for l in sorted(cands):
+            sub = lambda t, l=l: rewrite(clean(t), lambda y: ACC if y == ("carried", l) else (ELEM if y == elem else None))
+            cases = []
+            ok = True
+            for r in backs:
+                nv = clean(r.new(l))
+                if nv == elem:
+                    ch = "elem"
+                elif nv == ("carried", l):
+                    ch = "acc"
+                else:
+                    ok = False
+                    break
+                cases.append(({(op, sub(a), sub(b)) for op, a, b in r.facts}, ch))
+            if ok:
+                out.append({"seed": clean(loop_entry_value(body, h, l)), "src": elem[2][0], "cases": cases, "local": l, "where": body.where(h), "form": "loop", "result": None, "head": h})
+    tm = Terms(body)
+    for c in body.calls():
+        k = c.callee or ""
+        if itm(k, "fold") and len(c.args) == 3:
+            cl = tm.operand(c.args[2], c.bb)
+            if cl[0] != "closure" or cl[1] not in F.bodies or F.bodies[cl[1]].natural_loops():
+                continue
+            cb = F.bodies[cl[1]]
+            sub = lambda t: rewrite(clean(t), lambda y: ACC if y == ("arg", 2) else (ELEM if y == ("arg", 3) else None))
+            cases = []
+            ok = True
+            for r in table(cb, max_paths=2000):
+                if r.end != "return":
+                    continue
+                rv = clean(r.ret)
+                if rv == ("arg", 2):
+                    ch = "acc"
+                elif rv == ("arg", 3):
+                    ch = "elem"
+                else:
+                    ok = False
+                    break
+                cases.append(({(op, sub(a), sub(b)) for op, a, b in r.facts}, ch))
+            if ok and cases:
+                out.append({"seed": clean(tm.operand(c.args[1], c.bb)), "src": clean(tm.operand(c.args[0], c.bb)), "cases": cases, "local": None, "where": c.where(), "form": "fold", "result": clean(tm.call_term(c.term, c.bb)), "head": None})
     return out
 
 
